@@ -396,7 +396,9 @@ def leftmost_op(node):
 GRID = [-720, -361, -360, -180.5, -90, -10, -2.5, -1.6, -1.5, -1.01, -1, -0.5,
         -0.25, 0, 0.25, 0.5, 0.866, 1, 1.0, 1.01, 1.1, 1.5, 2, 2.1, 2.5, 4, 9,
         10.75, 30, 45, 60, 89, 90, 179.5, 180, 270, 355, 359.99, 360, 365, 400,
-        720, 3607, 12345.678]
+        720, 3607, 12345.678,
+        # so close to a whole turn that the remainder rounds to the turn
+        -0.00000000000000000001, -0.0000000000000001]
 FUNCTIONS = {
     'floor': math.floor, 'ceil': math.ceil, 'trunc': math.trunc,
     'round': None, 'sqrt': None,
@@ -426,6 +428,8 @@ def builtin_expected(name, x):
 
 def lit(x):
     text = repr(x)
+    if 'e' in text:     # the lexer has no exponent notation
+        text = '{:.30f}'.format(x).rstrip('0')
     if text.startswith('-'):
         return ['neg', ['num', text[1:]]]
     return ['num', text]
@@ -481,6 +485,12 @@ def _run_builtins_in(acc, world, env_name, header):
         for (x, want, text), got in zip(wanted, outs):
             ok = isinstance(got, (int, float)) and abs(got - want) <= 1e-9 * \
                 max(1.0, abs(want))
+            if name == 'cycle':
+                # "normalizes an angle such that the result is between 0 and
+                # 360", [cycle 360] being 0: a full turn is never a result
+                ok = isinstance(got, (int, float)) and 0 <= got < 360 and (
+                    abs(got - want) <= 1e-9 or abs(abs(got - want) - 360)
+                    <= 1e-9)
             if name in ('floor', 'ceil', 'trunc', 'round'):
                 ok = ok and float(got).is_integer()
             acc.case(key='builtin:{}:{}:{}'.format(name, x, env_name),
